@@ -310,7 +310,8 @@ TRUSTED_BASE = [
     "equals some member of b' (hashable members), `xs[i]` without IndexError, `.get` on a non-dict as None (rules / children are dicts), "
     "`str(x).lower()` = the oracle's text lower-cased on ASCII letters (the result is only compared with ASCII literals that contain no `k`). "
     "Validated against CPython on every run (Run/SrcEvalLint.lean vs the real analyze_policy / analyze_policyset on the algorithm-dependent issues); "
-    "the helper models Lint.actions / resourceCovers / firstApplicableUnreachable are tied only by that differential run",
+    "`_resource_covers` (existing pytolean) and `_first_applicable_unreachable` (`set(e)` = the list of its members, `issubset`) are translated and "
+    "proved equal to the model helpers (Run/C17_lint_helpers_translated.lean); the helper model Lint.actions (`_actions`) is tied only by that differential run",
 ]
 
 
